@@ -452,8 +452,7 @@ theorem demoJ_wf : WFL demoJ := by
   · intro t a h
     simp only [demoJ, List.mem_cons, List.mem_nil_iff, or_false, reduceCtorEq, false_or, LCmd.jump.injEq] at h
     obtain ⟨rfl, rfl⟩ := h
-    refine ⟨by decide, ?_⟩
-    show 5 = (encodeL (demoJ.take 1)).length
+    show 5 = (encodeL (demoJ.take 1)).length + (1 - demoJ.length)
     simp only [encodeL, demoJ, List.take, List.map, LCmd.bytes, Cmd.bytes, List.flatten, varint_small 5 (by decide)]
     decide
 
@@ -473,6 +472,58 @@ example (hist : List (Nat × Nat)) (hH : ∀ x ∈ hist, x.1 ≤ 4000) (f : Nat)
   rw [e1] at h
   exact ⟨h.1, h.2.2⟩
 
+
+/-! ### a jump to the end of the program or beyond it ends the program -/
+
+/-- **a jump out of the program ends it there**: when the machine's `k`-th command is a jump whose target is the end of the
+program or any address beyond it, the machine terminates with step `k + 1` — whatever follows the jump never runs, and
+(`machine_ended`) the colour and pyro mask in force at the jump are held from then on -/
+theorem jump_out_terminates (cs : List LCmd) (k t a : Nat) (hl : LiveM cs (k + 1))
+    (hj : cs[(am cs k).idx]? = some (.jump t a)) (ht : cs.length ≤ t) (hT : ∀ j, j ≤ k + 1 → (am cs j).m.T ≤ 16777216) :
+    Terminates cs (k + 1) ∧ (am cs (k + 1)).m = (am cs k).m := by
+  have hne := am_not_ended cs k (fun j hj => hl j (by omega))
+  have hs : am cs (k + 1) = { am cs k with idx := t, stack := [] } := by
+    rw [am_succ]; unfold amStep; simp only [hne, Bool.false_eq_true, if_false, hj]
+  exact ⟨⟨by omega, hl, by rw [hs]; exact ht, hT⟩, by rw [hs]⟩
+
+/-- red 0.2 s; JUMP to address 64 of a 14-byte program; green 0.2 s; white — the seeded change C02-19 of DESIGN.md 9.6
+(a range check that turned this jump into a no-op) made exactly this program show green -/
+def demoX : List LCmd :=
+  [.base (.set .rgb 255 0 0 10), .jump 54 64, .base (.set .rgb 0 255 0 10), .base (.set .white 255 255 255 0)]
+
+theorem demoX_bytes : encodeL demoX = [4, 255, 0, 0, 10, 18, 64, 4, 0, 255, 0, 10, 7, 0] := by
+  simp only [encodeL, demoX, List.map, LCmd.bytes, Cmd.bytes, List.flatten, varint_small 10 (by decide), varint_small 64 (by decide),
+    varint_small 0 (by decide)]
+  decide
+
+theorem demoX_wf : WFL demoX := by
+  refine ⟨?_, by decide, by rw [demoX_bytes]; decide, ?_⟩
+  · intro c hc
+    simp only [demoX, List.mem_cons, List.mem_nil_iff, or_false] at hc
+    rcases hc with rfl | rfl | rfl | rfl <;> simp [LCmd.ok, Cmd.ok, Enc.fits]
+  · intro t a h
+    simp only [demoX, List.mem_cons, List.mem_nil_iff, or_false, reduceCtorEq, false_or, or_false, LCmd.jump.injEq] at h
+    obtain ⟨rfl, rfl⟩ := h
+    show 64 = (encodeL (demoX.take 54)).length + (54 - demoX.length)
+    have : demoX.take 54 = demoX := by decide
+    rw [this, demoX_bytes]
+    decide
+
+theorem demoX_terminates : Terminates demoX 2 :=
+  (jump_out_terminates demoX 1 54 64 (by unfold LiveM; decide) (by decide) (by decide) (by decide)).1
+
+/-- whatever was asked before: at 201 ms — and at any later time — the player holds red and has ended; the green and white
+commands behind the jump never run -/
+example (hist : List (Nat × Nat)) (f t : Nat) (p r : Player) (h200 : 200 < t)
+    (hp : seekAll (Player.fresh (encodeL demoX)) hist = .ok p) (hr : p.seek t f = .ok r) :
+    r.exec.color = (255, 0, 0) ∧ r.exec.pyro = 0 ∧ r.exec.ended = true := by
+  have h := machine_ended demoX demoX_wf 2 demoX_terminates hist t f p r hp hr (by
+    have : (am demoX 2).m.T = 200 := by decide
+    omega)
+  have e1 : (am demoX 2).m.col = (255, 0, 0) := by decide
+  have e2 : (am demoX 2).m.pyro = 0 := by decide
+  rw [e1, e2] at h
+  exact h
 
 /-! ### non-vacuity: channel-driven colours and triggered jumps -/
 
